@@ -969,6 +969,7 @@ func (e *driverEnv) evidence(pl plan, a *agg, wall, mainWall float64, mainRuns, 
 			"deferred_reader_reads":                    a.counters["deferred-reads"],
 			// workload shapes and blocking shims (C16)
 			"sibling_report_bursts": a.counters["sibling-bursts"],
+			"export_storms":         a.counters["export-storms"],
 			"blocked_hand_overs":    a.counters["blocked-switches"],
 		},
 		"cross_process_keys_compared": a.crossShared,
